@@ -11,6 +11,7 @@ COMMON_TRUSTED = [
 
 # (file under coq/Gen, acra-vh arguments that print it): regenerated from /repo on every run
 GENERATORS = [
+    ("ParsersConsts.v", ["x14parconsts"]),
     ("MysqlSessionConsts.v", ["x05myconsts"]),
     ("SqlWords.v", ["sqlwords"]),
     ("SqlKeywords.v", ["sqlkeywords"]),
@@ -296,7 +297,8 @@ PROPS = {
             "C14_wire",
             "C14_tokens",
             "C14_wire_mysql",
-            "C14_tokenizer"
+            "C14_tokenizer",
+            "C14_parsers"
         ],
         "domains": [
             {
@@ -328,6 +330,13 @@ PROPS = {
                 "model": True
             },
             {
+                "name": "c14par",
+                "run_vo": "Model/RunParsersExt.vo",
+                "n_quick": 16,
+                "n_thorough": 400,
+                "model": True
+            },
+            {
                 "name": "c14fuzz",
                 "run_vo": ".vo",
                 "n_quick": 250,
@@ -340,7 +349,8 @@ PROPS = {
             "modelled, not verified: Themis itself (abstract record); processors/callbacks of the scanners are universally quantified functions that never panic",
             "Properties/C14_envelope.v holds the 55 envelope theorems of C14; Properties/C14.v re-exports it with the headline conjunction",
             "MySQL (Model/MysqlWireExt.v, Properties/C12_mysql.v, domain c12my): packet framing, classification, binary rows, column definition packets and the COM_STMT_EXECUTE parameter block are CHECKED models replayed through the add-only hook decryptor/mysql/export_verif_x12my.go; MaxPayloadLen is a parameter of the model (theorems for every value; the multi-packet branch of ReadPacket/Dump is tied to the real code only by the 16 MiB implementation oracle of the thorough tier, such literals cannot be replayed in Coq); the subscribers of a row (onColumnDecryption) and GetType/GetData/Encode of a bound value are arbitrary functions in the theorems and scripted in the replay (their own behaviour: C19 / Model/TypedMysql.v); the decimal text form of numeric parameters (strconv) is not modelled; Handler.handleStatementExecute and the capability accessors of the first packets are run on truncated packets by the implementation oracle only (hooks VerifX12HandleStatementExecute / VerifX12Capabilities), not modelled; Gen/WireMysqlConsts.v: type tables probed from extractData for all 256 type bytes and read from base.NumericTypesStorageBytes",
-            "SQL tokenizer (Model/SqlTokenizer.v, Properties/C14_tokenizer.v, domain c14tok): string tokenizers only (InStream == nil, the constructors every acra entry point uses; the io.Reader refill branch of next() is not modelled); Go's utf8.DecodeRune(Last)InString and strings.IndexFunc/TrimFunc (used by ExtractMysqlComment) are re-stated in the model and tied by replay only, unicode.IsDigit/IsSpace are probed on every code point into Gen/SqlKeywords.v; bytes.ToLower is modelled as ASCII lower-casing (identifier bytes are ASCII); fmt's %d as decimal digits; the token stream of short boundary inputs is compared by record count + folded FNV-1a digest of the records (TokBatch), scripted ops byte by byte; stack use of the real tokenizer is an implementation oracle (runtime.MemStats.StackInuse around 150 000 version comments)"
+            "SQL tokenizer (Model/SqlTokenizer.v, Properties/C14_tokenizer.v, domain c14tok): string tokenizers only (InStream == nil, the constructors every acra entry point uses; the io.Reader refill branch of next() is not modelled); Go's utf8.DecodeRune(Last)InString and strings.IndexFunc/TrimFunc (used by ExtractMysqlComment) are re-stated in the model and tied by replay only, unicode.IsDigit/IsSpace are probed on every code point into Gen/SqlKeywords.v; bytes.ToLower is modelled as ASCII lower-casing (identifier bytes are ASCII); fmt's %d as decimal digits; the token stream of short boundary inputs is compared by record count + folded FNV-1a digest of the records (TokBatch), scripted ops byte by byte; stack use of the real tokenizer is an implementation oracle (runtime.MemStats.StackInuse around 150 000 version comments)",
+            "Properties/C14_parsers.v (37 theorems, domain c14par, Model/ParsersExt.v + Model/HashExt.v): searchable-hash extractor for any hash registry (ExtractHash, ExtractHashAndData, Processor.OnColumn, NewHashProcessor / DecryptRotatedSearchable* slicing; boundary table of every length 0..70 x registered tags and neighbours x exact/spare capacity in EVERY tier), audit-log plaintext/CEF line parsers and the log file scanner, key file name parsers of keystore v1 (DescribeKeyFile, getContextFromFilename), ring path parser of keystore v2 (DescribeKeyRing), SNIOrHostname, TrimStringToN, binaryType.UnmarshalJSON, HexIdentifierConverter.Convert are CHECKED models replayed against the real functions; trusted there: strings.TrimSpace / strings.Contains keep the functional form of Model/AuditLog.v (C20), path.Clean / filepath.Dir are Model/Path.v (validated by domain c07), time.Parse (isHistoricalFilename) is an input bit, base64.StdEncoding.Decode and SHA-512 are abstract functions (decoder contract: at most DecodedLen(len src) bytes written), bufio.Scanner is modelled by its documented line/limit behaviour (exact for lines up to limit-2 and from limit on); inline string literals of describeV1/describeV2 come from go/ast (Gen/ParsersConsts.v); the JSON line parser stays under the implementation oracle (encoding/json tokenizer outside the model, see C20_json)"
         ],
         "assumptions": [
             "go_len s (len s <= 2^47, True of every Go byte slice) where the code converts len to uint64 or adds to it in int64",
